@@ -20,7 +20,9 @@ var c13NumSpell = []string{"1", "1.0", "1e0", "2", "10e-1", "2.0"}
 var c13BigKeys = []string{"9007199254740992", "9007199254740993", "9007199254740994", "12345678901234567890", "12345678901234567891", "0.1", "0.10000000000000001", "1e30", "-9007199254740993"}
 var c13Spell = []string{"1", "1.0", "1e0", "2", `"a"`, `"b"`, `"é"`, `"😀"`, "null", "[1]"}
 
-var c13Ops = []string{"sort_by", "min_by", "max_by", "sort", "min", "max", "sort_by_self"}
+// an op is a function, optionally followed by "/" and the expression that delivers the array (default: the document itself)
+var c13Ops = []string{"sort_by", "min_by", "max_by", "sort", "min", "max", "sort_by_self",
+	"sort_by/x[*]", "sort/x[*]", "sort_by_self/x[*]", "max_by/x[*]", "min/x[*]", "sort_by/(x)", "sort/x || z", "sort_by/x[:]", "sort/x[?`true`]", "sort_by/[x][0]", "sort/not_null(y, x)", "sort_by_nested"}
 
 func init() {
 	core.Register(&core.Check{
@@ -123,21 +125,46 @@ func c13Check(r *core.Run, c c13Case, op string) *core.Violation {
 	}
 	var expr string
 	var input []any
+	full := op
+	route := "@"
+	if i := strings.Index(op, "/"); i >= 0 {
+		op, route = full[:i], full[i+1:]
+	}
 	switch op {
 	case "sort_by", "min_by", "max_by":
 		expr, input = op+"(@, &k)", objs
 	case "sort_by_self":
 		expr, input = "sort_by(@, &@)", vals
+	case "sort_by_nested":
+		// the key is computed by another sort_by: each element carries an array m whose smallest s is the element's key
+		for i, o := range objs[:n] {
+			m := o.(map[string]any)
+			m["m"] = []any{map[string]any{"s": m["k"]}, map[string]any{"s": m["k"]}}
+			objs[i] = m
+		}
+		expr, input = "sort_by(@, &sort_by(m, &s)[0].s)", objs
 	default:
 		expr, input = op+"(@)", vals
 	}
+	var document any = input
+	if route != "@" {
+		if strings.Contains(route, "[") && route != "[x][0]" {
+			for _, v := range vals {
+				if v == nil {
+					return nil // a projection omits nulls: not the same array
+				}
+			}
+		}
+		expr = strings.Replace(expr, "@", route, 1)
+		document = map[string]any{"x": input, "z": input}
+	}
 	snapshot := core.Canon(core.Norm(input[:n+3]))
-	o := core.Search(expr, input)
+	o := core.Search(expr, document)
 	r.Eval(o)
 	r.Add("transitions", 1)
 	mk := func(kind, exp string) *core.Violation {
-		return &core.Violation{Sig: fmt.Sprintf("C13/%s/%s/%s/len-%s", kind, op, c.Kind, lenClass(n)), Desc: fmt.Sprintf("%s on keys [%s] (%s)", expr, c.keysText(), c.Kind),
-			Point: map[string]any{"op": op, "kind": c.Kind, "keys": c.keysString(), "expr": expr, "doc": core.ToJSONText(input)}, Expected: exp, Actual: o.Short()}
+		return &core.Violation{Sig: fmt.Sprintf("C13/%s/%s/%s/len-%s", kind, full, c.Kind, lenClass(n)), Desc: fmt.Sprintf("%s on keys [%s] (%s)", expr, c.keysText(), c.Kind),
+			Point: map[string]any{"op": full, "kind": c.Kind, "keys": c.keysString(), "expr": expr, "doc": core.ToJSONText(input)}, Expected: exp, Actual: o.Short()}
 	}
 	if core.Canon(core.Norm(input[:n+3])) != snapshot {
 		return mk("input-modified", "the input array (including its spare capacity) untouched")
@@ -172,7 +199,7 @@ func c13Check(r *core.Run, c c13Case, op string) *core.Violation {
 				return mk("unstable-or-unordered", "the stable order of the input values (spellings kept in input order among equal values)")
 			}
 		}
-	case "sort_by":
+	case "sort_by", "sort_by_nested":
 		want := make([]any, n)
 		for i, j := range idx {
 			want[i] = core.Norm(objs[j])
